@@ -82,20 +82,24 @@ ACraft(tk, k, from) ==
        /\ hist' = IF Export THEN Append(hist, [a |-> "scraft", kind |-> "Response", tok |-> tk, seq |-> 7, chal_from |-> EName(k), from |-> from]) ELSE hist
        /\ ctl' = [Stepped(r.w) EXCEPT !.tried = IF Coarse THEN @ \cup {<<tk, w.net[k].cid, w.net[k].cud, from>>} ELSE @]
 \* one honest exchange (harness macro `exchange`): client update, its datagram to the server, the reply back to the client
-AExchange(c, dt) ==
+\* `from` is the address the server sees: the client's own, or ("hijack" in Calls) any other one -- the holder of a token moving,
+\* or somebody who holds a copy of the whole token, showing up elsewhere
+AExchange(c, dt, from) ==
     /\ Can /\ "exchange" \in Calls
+    /\ (from = Clients[c].addr \/ "hijack" \in Calls)
     /\ LET r1 == DoCUpdate(w, c, dt)
            sent == r1.ev.out.kind # "None"
            k == Len(r1.w.net)
-           r2 == IF sent THEN DoSDeliver(r1.w, k, Clients[c].addr) ELSE [w |-> r1.w, ev |-> r1.ev]
+           r2 == IF sent THEN DoSDeliver(r1.w, k, from) ELSE [w |-> r1.w, ev |-> r1.ev]
            replied == sent /\ r2.ev.reply.kind # "None"
            r3 == IF replied THEN DoCDeliver(r2.w, c, Len(r2.w.net)) ELSE [w |-> r2.w, ev |-> r2.ev]
            evs == <<r1.ev>> \o (IF sent THEN <<r2.ev>> ELSE <<>>) \o (IF replied THEN <<r3.ev>> ELSE <<>>)
        IN /\ w' = r3.w
           /\ obs' = FoldObs(obs, evs, 1)
-    /\ hist' = IF Export THEN Append(hist, [a |-> "exchange", c |-> c, dt |-> dt, as |-> NextName]) ELSE hist
-    /\ ctl' = Stepped(w')
-
+    /\ hist' = IF Export THEN Append(hist, IF from = Clients[c].addr THEN [a |-> "exchange", c |-> c, dt |-> dt, as |-> NextName]
+                                           ELSE [a |-> "exchange", c |-> c, dt |-> dt, as |-> NextName, from |-> from]) ELSE hist
+    \* an exchange from a foreign address that the server ignores changes nothing else: remember that it was tried (see ACraft)
+    /\ ctl' = [Stepped(w') EXCEPT !.tried = IF Coarse /\ from # Clients[c].addr THEN @ \cup {<<c, w.cl[c].state, from>>} ELSE @]
 ACPayload(c) == /\ Can /\ "payload" \in Calls /\ ctl.tag <= 3
                 /\ w' = DoCPayload(w, c, 100 + ctl.tag, 20).w /\ obs' = ObsStep(obs, DoCPayload(w, c, 100 + ctl.tag, 20).ev)
                 /\ hist' = IF Export THEN Append(hist, [a |-> "cpayload", c |-> c, tag |-> 100 + ctl.tag, len |-> 20, as |-> NextName]) ELSE hist
@@ -141,7 +145,7 @@ APump == /\ ctl.healed /\ ctl.rounds < HealRounds
          /\ ctl' = [ctl EXCEPT !.rounds = @ + 1]
 
 Ids == {Tokens[t].id : t \in DOMAIN Tokens}
-Next == \/ \E c \in DOMAIN Clients : \E dt \in Dts : ACUpdate(c, dt) \/ AExchange(c, dt)
+Next == \/ \E c \in DOMAIN Clients : \E dt \in Dts : ACUpdate(c, dt) \/ (\E from \in Addrs \cup {Clients[c].addr} : AExchange(c, dt, from))
         \/ \E dt \in Dts : ASUpdate(dt)
         \/ \E k \in 1..24 : \E a \in Addrs : ASDeliver(k, a)
         \/ \E c \in DOMAIN Clients : \E k \in 1..24 : ACDeliver(c, k)
@@ -192,6 +196,8 @@ Clis_bad == [v |-> [tok |-> "TV", addr |-> 1], f |-> [tok |-> "TF", addr |-> 2],
 Clis_moved == [c1 |-> [tok |-> "T1", addr |-> 1], c1b |-> [tok |-> "T1", addr |-> 3], c2 |-> [tok |-> "T2", addr |-> 2]]
 \* applications that do not use the user data issue every token with the same one: one address holding tokens for two ids,
 \* a second holder of a token for the second id (seeded change C10/c: "id or user data matches" instead of "and")
+\* a copy of the victim's token in the hands of somebody at the attacker's address (the attacker has a token of its own there)
+Clis_thief == [v |-> [tok |-> "TV", addr |-> 1], a |-> [tok |-> "TA", addr |-> 2], vt |-> [tok |-> "TV", addr |-> 2], v2 |-> [tok |-> "TV2", addr |-> 3]]
 Toks_sameud == [T1 |-> Tok(10, 7, <<1>>, 30, "K", "P"), T2a |-> Tok(20, 7, <<1>>, 30, "K", "P"), T2b |-> Tok(20, 7, <<1>>, 30, "K", "P")]
 Clis_sameud == [a1 |-> [tok |-> "T1", addr |-> 1], a2 |-> [tok |-> "T2a", addr |-> 1], b |-> [tok |-> "T2b", addr |-> 2]]
 P_HS == <<"C05", "C10", "C17", "C19", "C04", "C13">>
